@@ -75,6 +75,8 @@ MUTANTS = [
     ("revert-D21-getpgid-unguarded", "execution/ops/run_task_executable.py",
      "                except OSError as ex:\n                    # The process may have already exited (and been reaped by\n                    # the SIGCHLD handler); there is nothing left to signal.\n                    if ex.errno != errno.ESRCH and ex.errno != errno.ECHILD:\n                        raise\n",
      "                except ZeroDivisionError:\n                    raise\n", ["C16"]),
+    ("revert-D22-clean-index-first", "cli/clean.py",
+     "    (ctx.output_path / VERSION_INDEX_NAME).unlink(missing_ok=True)\n", "    pass\n", ["C06"]),
     ("loader-no-dup-check", "parsing/task_index.py",
      "                    if dep_identifier in task_deps_set:\n", "                    if dep_identifier in task_deps_set and len(task_deps) > 2:\n", ["C14"]),
 ]
